@@ -197,7 +197,16 @@ func (s *MultiEventSyncer) handlePotentialReorg(ctx context.Context, header *typ
 		}
 		return errors.Wrap(err, "failed to get sync status")
 	}
-	numReorgedBlocks := calculateReorgDepth(status, header, s.AssumedReorgDepth)
+	checkHeader := header
+	if header.Number.Int64() > status.BlockNumber+1 {
+		// Blocks have been skipped, so the given header cannot tell if the synced block is still
+		// part of the chain. Check the current successor of the synced block instead.
+		checkHeader, err = s.ExecutionClient.HeaderByNumber(ctx, big.NewInt(status.BlockNumber+1))
+		if err != nil {
+			return errors.Wrap(err, "failed to get header of the block following the synced block")
+		}
+	}
+	numReorgedBlocks := calculateReorgDepth(status, checkHeader, s.AssumedReorgDepth)
 	if numReorgedBlocks == 0 {
 		return nil
 	}
